@@ -23,6 +23,7 @@ type SKnobs struct {
 	Crashes     int    `json:"crashes"`
 	RangeMode   int    `json:"range_mode"`
 	PChMode     int    `json:"pch_mode,omitempty"`  // numbering of the source pchannels, see srcPCh
+	EventCap    int    `json:"event_cap,omitempty"` // capacity of the reader's API event queue (0 = the shipped 10), hook H18
 	DoneMode    int    `json:"done_mode,omitempty"` // 1: loops that find their context cancelled always stop at once; 0: seeded coin
 }
 
@@ -92,6 +93,9 @@ type SScript struct {
 	MsgFaults []int `json:"msg_faults,omitempty"`
 	// ConnFaults: running numbers of the message-queue connection checks that fail (not parked either)
 	ConnFaults []int `json:"conn_faults,omitempty"`
+	// StateFaults: how many state writes that the service makes on its own (a pause after a failure: no request on that task
+	// in flight) are refused by the store - the failing task must stop all the same
+	StateFaults int `json:"state_faults,omitempty"`
 }
 
 const replicateChan = "by-dev-replicate-msg"
@@ -136,6 +140,9 @@ func GenS(rng *Rng, prop, variant, tier string) *SScript {
 	k.ClockW = Pick(rng, []int{1, 2, 4})
 	k.RangeMode = rng.Intn(3)
 	k.LogDebug = prop == "C18"
+	if prop == "C04" && rng.Pct(40) {
+		k.EventCap = rng.Range(1, 2)
+	}
 	if (prop == "C05" || prop == "C06") && rng.Pct(30) {
 		k.PChMode = rng.Range(1, 2)
 	}
@@ -378,6 +385,12 @@ func genSOps(rng *Rng, sc *SScript, prop string) {
 		}
 		if rng.Pct(20) {
 			sc.MsgFaults = []int{rng.Range(0, 5)}
+		}
+		if (prop == "C06" || prop == "C05") && rng.Pct(20) {
+			sc.StateFaults = rng.Range(1, 2)
+			if sc.Faults["dw_pack"] == 0 && sc.Faults["dw_down"] == 0 {
+				sc.Faults["dw_pack"] = 1
+			}
 		}
 		if rng.Pct(15) {
 			sc.ConnFaults = []int{rng.Range(0, 5)}
